@@ -4,6 +4,7 @@
 //@include prelude/net.rs
 //@include prelude/net2.rs
 //@include prelude/rand.rs
+//@include prelude/helpers.rs
 //@include inc/info_hash_types.rs
 //@include inc/node_handle.rs
 //@include inc/message_types.rs
